@@ -307,9 +307,15 @@ def check_c02(tier):
             V.sample({"shape": case["shape"], "order": case["order"], "queries": len(answers)})
 
     replayed = drive(meta, build, judge, only=replay_filter())
+    if not os.environ.get("VERIF_REPLAY"):
+        import binlayouts
+        nb, _ = binlayouts.run(V, tier, {"c02"}, cfg="Layouts_chain.cfg")
+        replayed += nb
+        V.notes["lsp_sessions"] = nb
     return V.finish(
         coverage_extra=tlc_cov(meta, replayed),
-        rule="override chains: every assignment of {absent, def, override} to three conftest levels x same-file "
+        rule="LSP tier: sampled chain layouts materialised on disk; textDocument/definition and textDocument/references of the real "
+             "binary on the name of every self-requesting override and on its parameter.  override chains: every assignment of {absent, def, override} to three conftest levels x same-file "
              "{none, def, override} x {plugin def | plugin override, third-party} with tests at depth 0,1,2 "
              "(spec/Layouts.tla, Layouts_chain.cfg), two registration orders each; every column of every "
              "overriding def line is probed for go-to-definition and references; non-trivial = every probe on "
